@@ -50,6 +50,10 @@ def child_env(idx=0, seed=0):
         env[k] = "1"
     env["PYTHONWARNINGS"] = "ignore"
     env["MPLBACKEND"] = "agg"
+    # half of the workers run with process-wide state a caller may legitimately have changed (numpy print options): results must not
+    # depend on it.  VERIF_PROCESS_STATE=default|hostile overrides (replays use the state the violation was seen in)
+    if "VERIF_PROCESS_STATE" not in os.environ:
+        env["VERIF_PROCESS_STATE"] = "hostile" if (idx + seed) % 2 == 1 else "default"
     return env
 
 
@@ -104,6 +108,7 @@ def main(argv=None):
     try:
         if args.replay:
             wit = json.load(open(args.replay))
+            os.environ.setdefault("VERIF_PROCESS_STATE", wit["violation"].get("process_state", "default"))
             rep = run_worker(prop, {"__replay__": True, "case": wit["violation"]["case"]}, scratch, 0,
                              getattr(mod, "REPLAY_TIMEOUT", 1800))
             nv = rep.get("violation_count", 0)
